@@ -1,36 +1,39 @@
-"""Genotype-to-phenotype mapping: effect contracts (C07).  The synthesis routines themselves (random_node /
-create_node) are not yet verified against their bodies; their INTERFACE contract states which objects they
-may touch -- the random source and the decider they are given -- and the mapping functions are verified
-against it: everything a mapping hands to the synthesis must be allocated by the mapping itself."""
+"""Genotype-to-phenotype mapping (C07 effect contracts; C01 / C03 through the synthesis entry point).  random_node and
+create_node are verified against their bodies in specs/synthesis.py; the mapping functions are verified against
+random_node's contract: everything a mapping hands to the synthesis must be allocated by the mapping itself (frame
+`modifies=[]`), and the mapped program is a well-typed value of the start symbol within the decider's depth limit.
+The representations are declared with a depth-limited decider (grow / full / PI-grow family)."""
 import specs.gene_sources  # noqa: F401  (declaration order)
 import specs.linear_genotypes  # noqa: F401  (declaration order)
 import specs.structured_genotypes  # noqa: F401  (declaration order)
+import specs.synthesis  # noqa: F401  (declaration order)
 from pyvc.spec import REG as R, Loop
 
 GE = "geneticengine/representations/grammatical_evolution/ge.py"
 SGE = "geneticengine/representations/grammatical_evolution/structured_ge.py"
 
-R.cls("Program", fields={})
-R.classes["SynthesisDecider"].fields["random"] = "RandomSource?"
-R.contract(
-    "random_node",
-    params=dict(random="RandomSource", grammar="Grammar", starting_symbol="~Type", decider="SynthesisDecider"),
-    returns="Program",
-    modifies=["random.*", "decider.*"],
-    raises={"GeneticEngineError": "True", "SynthesisException": "True"},
-    verify=False,
-    note="interface of the synthesis entry point: draws come from `random` and from the decider's own source; "
-    "decider state (e.g. PI-grow's `expanding`) may be written; the grammar is read-only (C10)",
-)
+MAP_REQ = {
+    "the_grammar": "same(self.grammar, thegrammar())",
+    "grammar_invariant": "g_ok(self.grammar) and not self.grammar.expansion_depthing",
+    "start_registered": "gdist_defined(self.grammar, self.grammar.starting_symbol)",
+    "feasible_limit": "gdist(self.grammar, self.grammar.starting_symbol) <= self.decider.max_depth",
+    "decider_uses_this_grammar": "same(self.decider.grammar, self.grammar)",
+    "limit_below_unproductive_marker": "self.decider.max_depth < 1000000",
+}
+MAP_ENS = {
+    "welltyped": "welltyped(result, self.grammar.starting_symbol)",
+    "within_depth": "vdepth(result) <= self.decider.max_depth",
+}
 R.contract(
     "GrammaticalEvolutionRepresentation.genotype_to_phenotype",
     file=GE,
     params=dict(self="GrammaticalEvolutionRepresentation", genotype="GEGenotype"),
-    returns="Program",
-    requires={"genes": "len(genotype.dna) >= 1"},
-    raises={"GeneticEngineError": "True", "SynthesisException": "True"},
+    returns="~Val",
+    requires=dict(MAP_REQ, genes="len(genotype.dna) >= 1"),
+    ensures=dict(MAP_ENS),
+    raises={"GeneticEngineError": "handlers_may_fail()", "SynthesisException": "handlers_may_fail()"},
     modifies=[],
-    props=["C07"],
+    props=["C07", "C01", "C03", "C10"],
     note="writes nothing that existed before the call: the gene-backed source and the decider copy are allocated here; "
     "in particular the shared random source of the search (self.decider.random) is not in the frame",
 )
@@ -53,8 +56,10 @@ R.contract(
     "StructuredGrammaticalEvolutionRepresentation.genotype_to_phenotype",
     file=SGE,
     params=dict(self="StructuredGrammaticalEvolutionRepresentation", genotype="SGEGenotype"),
-    returns="Program",
-    raises={"GeneticEngineError": "True", "SynthesisException": "True"},
+    returns="~Val",
+    requires=dict(MAP_REQ),
+    ensures=dict(MAP_ENS),
+    raises={"GeneticEngineError": "handlers_may_fail()", "SynthesisException": "handlers_may_fail()"},
     modifies=[],
-    props=["C07"],
+    props=["C07", "C01", "C03", "C10"],
 )
